@@ -451,7 +451,7 @@ pub fn drive_hist(a: &Args, thorough: bool) {
         }
     }
     // (2) random histories
-    for _ in 0..(if thorough { 15000 } else { 250 }) {
+    for _ in 0..(if thorough { 60000 } else { 250 }) {
         sh.next_unit();
         let len = rng.range(50, 200);
         steps += random_history(&mut sh, &mut rng, len);
@@ -668,7 +668,7 @@ pub fn drive_ctor(a: &Args, thorough: bool) {
     let mut rng = Rng::new(a.seed ^ 0xeeee);
     let mut n = 0u64;
     let mut violating = 0u64;
-    for _ in 0..(if thorough { 300000 } else { 6000 }) {
+    for _ in 0..(if thorough { 1000000 } else { 6000 }) {
         if n % 50 == 0 {
             sh.next_unit();
         }
